@@ -45,10 +45,11 @@ CHECKS.update({
    note=LINK_NOTE + " The predictor is a user function wrapped by trackpy.predict.predictor; DriftPredict's own velocity estimation is not exercised."),
  'C12': dict(
    text="Proof: Properties/C12.v - adaptive step = plain step whenever every subnet fits the adaptive limit; a subnet that fits is never split; every finally solved sub-group only contains "
-        "candidate pairs within its reduced range (no longer link can be made). Correspondence: link_iter(adaptive_stop, adaptive_step) with lowered MAX_SUB_NET_SIZE_ADAPTIVE on dense "
+        "candidate pairs within its reduced range (no longer link can be made) and is solved optimally with that range as the cost of not linking; a raise exhibits a still-oversize "
+        "group at a range <= adaptive_stop and a normal return means there was none. Correspondence: link_iter(adaptive_stop, adaptive_step) with lowered MAX_SUB_NET_SIZE_ADAPTIVE on dense "
         "clusters; the Coq model re-splits oversize groups itself and the monitor decides leaf by leaf admissibility and optimal cost for the leaf's range as null cost, and raise iff the model raises.",
-   note=LINK_NOTE + " 'raise exactly when' and 'each sub-group solved optimally with the reduced range' are decided by the executable model in the correspondence, not by a closed theorem (partial). "
-        "Isotropic ranges and binary-fraction steps only (exact floats)."),
+   note=LINK_NOTE + " 'Raise exactly when' is proved relative to sufficient fuel (a return containing OutOfFuel is reported by the monitor as code 10, never observed). "
+        "Correspondence restricted to isotropic ranges and binary-fraction steps (exact floats)."),
  'C10': dict(
    text="Proof: Properties/C10.v (2-D and 3-D, all sizes) - bandpass's result is pixel for pixel clip(thr, separable Gaussian correlation with zero border - box mean with replicated border), "
         "input shape, exact sign condition (never negative for thr >= 0), homogeneity, commutation with transposition, the llong<=lshort guard, and the kernel is the truncated normalised "
@@ -108,4 +109,14 @@ CHECKS.update({
         "model and monitors vs trackpy.find.grey_dilation / where_close / drop_close on integer and float images (plateaus, ties, negative pixels), 2-D/3-D, per-axis separations, margins, "
         "percentiles; exhaustive 3x3 and 2x2x2 universes in the thorough tier.",
    note=STAT_NOTE + "np.percentile enters as a parameter (the harness recomputes the threshold independently with numpy); scipy's grey_dilation window/padding and cKDTree.query_pairs are modelled."),
+})
+CHECKS.update({
+ 'C07': dict(
+   text="Proof: Properties/C07.v (any image size, >= 2 axes, radii, start, iteration limit, characterize on/off) - the numba-kernel model returns exactly the reference (_refine) row "
+        "(position, mass, size(s), signal, raw_mass) whenever every evaluated window has non-zero mass; the reported position is the centroid of the very neighbourhood on which mass, size, "
+        "signal and raw_mass were measured, also when the iteration limit stops right after a shift; that neighbourhood is the full ellipse and lies wholly inside the image (shift-and-clip "
+        "invariant); zero mass separates the engines. Correspondence: exact rational models vs refine_com_arr with engine='python' and engine='numba' (interpreted) on integer images, 2-D/3-D, "
+        "iso/anisotropic, iteration limits 1-20, starts far from the blob and at the clipping bounds; masses exact, positions/sizes within 2^-40 relative.",
+   note=STAT_NOTE + "That the four Python kernels are instances of the generic kernel model is established by correspondence (no source translator for them). ecc is compared engine-vs-engine only. "
+        "numba is absent: 'compiled' execution is not exercised."),
 })
